@@ -7,7 +7,7 @@ from ._drv import Flags, ppos
 ALL_SPLIT = ('Fact', 'Trans', 'Equil', 'ColPerm', 'IterRefine', 'PivotGrowth', 'ConditionNumber', 'RowPerm', 'A.Stype', 'B.ncol', 'equed', 'lwork', 'info')
 
 
-def flags_for(prog, f, p, ilu=False, tier='quick', split=ALL_SPLIT):
+def flags_for(prog, f, p, ilu=False, tier='quick', split=ALL_SPLIT, lwork_values=None):
     E = prog.enums
     fl = Flags(prog, f, p)
     # flags not in `split` stay undeclared: branches on them are explored both ways (their events are alternatives)
@@ -33,7 +33,9 @@ def flags_for(prog, f, p, ilu=False, tier='quick', split=ALL_SPLIT):
     fl.add('equed_in', '*$%d' % k, [ord(c) for c in 'NRCB'], list('NRCB'))
     fl.add('equed_laqgs', None, [ord(c) for c in 'NRCB'], list('NRCB'))
     fl.add('info_gsequ', None, [0, 1], ['0', 'zero-row/col'])
-    if 'lwork' in split:
+    if lwork_values is not None:
+        fl.add('lwork', '$%d' % ppos(f, 'lwork'), list(lwork_values), [{-1: '-1(query)', 0: '0(malloc)'}.get(x, '>0(workspace)') for x in lwork_values])
+    elif 'lwork' in split:
         fl.add('lwork', '$%d' % ppos(f, 'lwork'), [-1, 0, 4096], ['-1(query)', '0(malloc)', '>0(workspace)'])
     else:
         fl.add('lwork', '$%d' % ppos(f, 'lwork'), [0], ['0(malloc)'])
@@ -41,12 +43,12 @@ def flags_for(prog, f, p, ilu=False, tier='quick', split=ALL_SPLIT):
     return fl
 
 
-def leaves_for(prog, eff, p, ilu=False, tier='quick', split=ALL_SPLIT):
+def leaves_for(prog, eff, p, ilu=False, tier='quick', split=ALL_SPLIT, lwork_values=None):
     name = p + ('gsisx' if ilu else 'gssvx')
     f = prog.func(name)
     if f is None:
         return None, None, None
-    fl = flags_for(prog, f, p, ilu, tier, split)
+    fl = flags_for(prog, f, p, ilu, tier, split, lwork_values)
     fac = p + ('gsitrf' if ilu else 'gstrf')
     kequed = ppos(f, 'equed')
 
